@@ -21,3 +21,20 @@ def _add(I, ci, a, b):
     if isinstance(pa, (Str, StringObj)):
         return StringObj(list(pa.chars) + chars_of(b))
     return pa + peel(b)
+
+
+# ------------------------------------------------------------------ logging (tracing): disabled — the macros' level test answers false, so
+# no event is built and no formatting of the logged values is executed (documented stub: logging has no effect on results)
+def _tracing_const(I, text):
+    if text.startswith('tracing::Level::') or text.startswith('tracing::level_filters::') or text.startswith('tracing_subscriber::filter::LevelFilter::'):
+        return Opaque('tracing', [text])
+    return None
+
+
+from models import CONSTS as _CONSTS
+_CONSTS.append(_tracing_const)
+
+
+@model('<Level as PartialOrd<LevelFilter>>::le', '<Level as PartialOrd<LevelFilter>>::lt', '<Level as PartialOrd>::le')
+def _tracing_le(I, ci, a, b):
+    return False
